@@ -361,10 +361,9 @@ def _cost(c: MacroContract) -> int:
     return (50 if c.domain else 1) * min(c.max_ops, 3_000_000)
 
 
-def make_batches(contracts: Sequence[MacroContract], tier: str) -> List[Tuple[List[MacroContract], int]]:
+def make_batches(contracts: Sequence[MacroContract], size: int) -> List[Tuple[List[MacroContract], int]]:
     """(contracts of one program, width): programs of up to BATCH applications whose variables agree in shape; big-domain
     contracts and everything at w=16 (no tables: assembly is cheap, memory is tiny) stay alone"""
-    size = BATCH[tier]
     out: List[Tuple[List[MacroContract], int]] = []
     for w in sorted({w for c in contracts for w in c.widths}, reverse=True):
         mine = [c for c in contracts if w in c.widths]
@@ -384,42 +383,51 @@ def make_batches(contracts: Sequence[MacroContract], tier: str) -> List[Tuple[Li
     return out
 
 
-def run_section(rep: Report, title: str, domain_text: str, contracts: Sequence[MacroContract], tier: str, seed: int, limit: int, procs: int = 16) -> Dict[str, Any]:
+def run_sections(rep: Report, sections: Sequence[Tuple[str, str, Sequence[MacroContract], int]], tier: str, seed: int, procs: int = 16) -> List[str]:
+    """sections: (title, domain text, contracts, tuple limit).  ONE pool for all of them (no idle tail between sections);
+    returns the notes about widths that were skipped."""
     import multiprocessing as mp
 
     global _JOBS
-    jobs = [(cs, w, tier, seed, limit) for cs, w in make_batches(contracts, tier)]
+    jobs = []
+    for si, (_, _, contracts, limit) in enumerate(sections):
+        size = max(4, BATCH[tier] // 2) if si == 1 else BATCH[tier]  # compositions are several macros each
+        jobs += [(cs, w, tier, seed, limit, si) for cs, w in make_batches(contracts, size)]
     jobs.sort(key=lambda j: -sum(_cost(c) for c in j[0]))  # the expensive ones first, so that the pool drains evenly
-    _JOBS = jobs  # contracts hold lambdas: the forked workers read them from here, only indices are pickled
+    _JOBS = [j[:5] for j in jobs]  # contracts hold lambdas: the forked workers read them from here, only indices are pickled
     ctx = mp.get_context('fork')
     with ctx.Pool(max(1, min(procs, len(jobs)))) as pool:
         results = pool.map(_one, range(len(jobs)), chunksize=1)
-    evals = ops = nex = napp = 0
-    seen_keys = set()
     skipped: List[str] = []
-    widths = set()
-    for (cs, w, *_), rs in zip(jobs, results):
-        for c, r in zip(cs, rs):
-            napp += 1
-            evals += r['evals']
-            ops += r['ops']
-            nex += 1 if r['exhaustive'] and r['evals'] else 0
-            if r['evals']:
-                widths.add(w)
-            if r['note']:
-                skipped.append(r['note'])
-            for v in r['viols']:
-                if (v.obligation, v.key) not in seen_keys:  # one line per contract and kind, not one per width
-                    seen_keys.add((v.obligation, v.key))
-                    rep.violation(v)
-    rep.add_bounded(
-        f'{PROP}: {title}',
-        f'{len(contracts)} applications, {napp} (application, width) runs in {len(jobs)} assembled programs, {nex} runs over ALL their operand tuples; {domain_text}; widths {sorted(widths)}',
-        evals,
-        evals,
-        machine_ops=ops,
-    )
-    return dict(skipped=skipped, evals=evals)
+    seen_keys = set()
+    for si, (title, domain_text, contracts, limit) in enumerate(sections):
+        evals = ops = nex = napp = nprog = 0
+        widths = set()
+        for (cs, w, *_, sj), rs in zip(jobs, results):
+            if sj != si:
+                continue
+            nprog += 1
+            for c, r in zip(cs, rs):
+                napp += 1
+                evals += r['evals']
+                ops += r['ops']
+                nex += 1 if r['exhaustive'] and r['evals'] else 0
+                if r['evals']:
+                    widths.add(w)
+                if r['note']:
+                    skipped.append(r['note'])
+                for v in r['viols']:
+                    if (v.obligation, v.key) not in seen_keys:  # one line per contract and kind, not one per width
+                        seen_keys.add((v.obligation, v.key))
+                        rep.violation(v)
+        rep.add_bounded(
+            f'{PROP}: {title}',
+            f'{len(contracts)} applications, {napp} (application, width) runs in {nprog} assembled programs, {nex} runs over ALL their operand tuples; {domain_text}; widths {sorted(widths)}',
+            evals,
+            evals,
+            machine_ops=ops,
+        )
+    return sorted(set(skipped))
 
 
 def compose(parts: Sequence[MacroContract], widths: Tuple[int, ...]) -> MacroContract:
@@ -500,34 +508,35 @@ def body(tier: str, seed: int) -> int:
     t = 'thorough' if tier == 'thorough' else 'quick'
     limit = TUPLE_LIMIT[t]
     singles = hexc.contracts(t, seed)
-    s1 = run_section(
-        rep,
-        'single-macro contracts executed on the real assembled library (machine definition as the engine)',
-        f'operand tuples exhaustive where their number is <= {limit} (n <= 2 with one or two operands, n = 1 with three; n = 2 pairs in the `(all pairs)` '
-        f'contracts of thorough), corners + random beyond, cut at {OP_BUDGET[t]} executed ops per run; shuffled order, consecutive executions on '
-        'ONE assembled instance so that leaked state shows; frame = all of memory but the destinations data bits',
-        singles,
-        t,
-        seed,
-        limit,
-    )
     comps, info = compositions(singles, t, seed)
-    s2 = run_section(
+    tabs, doms = hexc.table_contracts(t, seed)
+    skipped = run_sections(
         rep,
-        'compositions of 2-4 macro applications on shared variables x, y, z, u, t',
-        f'{info}; up to {TUPLE_LIMIT["quick"]} operand tuples each (corners + random)',
-        comps,
+        [
+            (
+                'single-macro contracts executed on the real assembled library (machine definition as the engine)',
+                f'operand tuples exhaustive where their number is <= {limit} (n <= 2 with one or two operands, n = 1 with three; n = 2 pairs in the '
+                f'`(all pairs)` contracts of thorough), corners + random beyond, cut at {OP_BUDGET[t]} executed ops per run; shuffled order, consecutive '
+                'executions on ONE assembled instance so that leaked state shows; frame = all of memory but the destinations data bits',
+                singles,
+                limit,
+            ),
+            (
+                'compositions of 2-4 macro applications on shared variables x, y, z, u, t',
+                f'{info}; up to {TUPLE_LIMIT["quick"]} operand tuples each (corners + random)',
+                comps,
+                TUPLE_LIMIT['quick'],
+            ),
+            ('lookup tables of hex.init driven over their complete operand domain', '; '.join(f'{a}: {b} ({n} tuples)' for a, b, n in doms), tabs, limit),
+        ],
         t,
         seed,
-        TUPLE_LIMIT['quick'],
     )
-    tabs, doms = hexc.table_contracts(t, seed)
-    run_section(rep, 'lookup tables of hex.init driven over their complete operand domain', '; '.join(f'{a}: {b} ({n} tuples)' for a, b, n in doms), tabs, t, seed, limit)
     rep.extra['macros_under_contract'] = sorted({re.sub(r'\[.*?\]|\(.*?\)| n=.*$', '', c.name).strip() for c in singles})
     rep.extra['contract_applications'] = len(singles)
     rep.extra['compositions'] = dict(count=len(comps), **info)
     rep.extra['table_domains'] = [dict(table=a, domain=b, tuples=n) for a, b, n in doms]
-    rep.extra['skipped_widths'] = sorted(set(s1['skipped'] + s2['skipped']))
+    rep.extra['skipped_widths'] = skipped
     rep.extra['not_under_contract'] = hexc.NOT_UNDER_CONTRACT
     rep.assume('[B] bounded: operand tuples exhaustive only where the product of the operand ranges is small; vector lengths and widths are the listed ones; sequences of macro applications are the listed covers, not all sequences')
     rep.assume('the scratch vectors a macro declares in its own body (hex.div: _a _b _r i; hex.idiv: negative_a negative_b one_negative; hex.mul: dst src a_1bits b_1bits; hex.scmp: ba bb) are not program variables: their data bits may change, nothing else of those cells')
